@@ -190,4 +190,511 @@ theorem reset_eq (cls : Classifier) (s : Store) :
 theorem exitDormancy_eq (cls : Classifier) (s : Store) :
     ∃ st, exitDormancy cls s = ({ s with state := st }, .ok ()) := updateState_spec cls _
 
+/-! ### colonies -/
+
+def sumOf (f : Store → Int) (sys : Sys) : Int := (sys.map f).sum
+
+theorem sumOf_set (f : Store → Int) : ∀ (sys : Sys) (i : Nat) (s x : Store), sys[i]? = some s →
+    sumOf f (sys.set i x) = sumOf f sys - f s + f x
+  | [], i, s, x, h => by simp at h
+  | a :: l, 0, s, x, h => by
+      simp at h; subst h; simp [sumOf]; omega
+  | a :: l, i + 1, s, x, h => by
+      have := sumOf_set f l i s x (by simpa using h)
+      simp [sumOf] at *; omega
+
+/-- every store of the colony is well formed -/
+def Sys.WF (sys : Sys) : Prop := ∀ (i : Nat) (s : Store), sys[i]? = some s → s.WF
+
+theorem lt_of_get {sys : Sys} {j : Nat} {t : Store} (h : sys[j]? = some t) : j < sys.length := by
+  obtain ⟨h', _⟩ := List.getElem?_eq_some_iff.mp h; exact h'
+
+theorem onStore_get (sys : Sys) (j : Nat) (f : Store → Store × Ret) (i : Nat) :
+    (onStore sys j f).1[i]? = if j = i then (sys[i]?).map (fun t => (f t).1) else sys[i]? := by
+  unfold onStore
+  cases h : sys[j]? with
+  | none =>
+    by_cases e : j = i
+    · subst e; simp [h]
+    · simp [e]
+  | some t =>
+    by_cases e : j = i
+    · subst e
+      rw [List.getElem?_set_self (lt_of_get h)]; simp [h]
+    · simp [e]
+
+theorem onStore_length (sys : Sys) (j : Nat) (f : Store → Store × Ret) : (onStore sys j f).1.length = sys.length := by
+  unfold onStore; cases sys[j]? <;> simp
+
+theorem onStore_sum (g : Store → Int) (sys : Sys) (j : Nat) (f : Store → Store × Ret) :
+    sumOf g (onStore sys j f).1 = sumOf g sys + (match sys[j]? with | some t => g (f t).1 - g t | none => 0) := by
+  unfold onStore
+  cases h : sys[j]? with
+  | none => simp
+  | some t => simp only []; rw [sumOf_set g sys j t _ h]; omega
+
+theorem onStore_ret (sys : Sys) (j : Nat) (f : Store → Store × Ret) :
+    (onStore sys j f).2 = (match sys[j]? with | some t => (f t).2 | none => .noSuchStore) := by
+  unfold onStore; cases sys[j]? <;> rfl
+
+
+/-! ### one call on a colony -/
+
+/-- operations that bring energy in from outside the colony -/
+def Op.inflow : Op → Bool
+  | .regenerate _ _ _ => true
+  | .reset _ => true
+  | _ => false
+
+/-- what a call cost its caller: the cost of a `consume` that reported success, nothing otherwise -/
+def paid : Op → Ret → Int
+  | .consume _ cost _ _ _, .bool true => cost
+  | _, _ => 0
+
+/-- A quantity that behaves like money under every operation (both `worth` and `room` do). -/
+structure Pot (g : Store → Int) : Prop where
+  consume : ∀ cls s cost cur d p, g (consume cls s cost cur d p).1 =
+    g s - (if (consume cls s cost cur d p).2.2.success then (cost : Int) else 0)
+  withdraw : ∀ s n cur, (withdraw s n cur).2 = true → g (withdraw s n cur).1 = g s - n
+  deposit : ∀ cls s n cur, g (regenerate cls s n cur).1 ≤ g s + n
+  convert : ∀ s n, g (convert s n).1 = g s
+  interest : ∀ s, s.WF → g (applyInterest s) ≤ g s
+  state : ∀ s st, g { s with state := st } = g s
+
+theorem pot_worth : Pot Store.worth where
+  consume cls s cost cur d p := (consume_spec cls s cost cur d p).1.worth
+  withdraw s n cur h := ((withdraw_spec s n cur).ok h).2.1
+  deposit cls s n cur := (regenerate_spec cls s n cur).1.worth
+  convert s n := by
+    have h := convert_spec s n
+    have := h.total; have := h.debt
+    simp only [Store.worth, Store.total] at *; omega
+  interest s h := by
+    have := interestAmount_nonneg s h.debt
+    simp only [Store.worth, applyInterest]; omega
+  state s st := rfl
+
+theorem pot_room : Pot Store.room where
+  consume cls s cost cur d p := (consume_spec cls s cost cur d p).1.room
+  withdraw s n cur h := ((withdraw_spec s n cur).ok h).2.2
+  deposit cls s n cur := (regenerate_spec cls s n cur).1.room
+  convert s n := by
+    have h := convert_spec s n
+    have := h.total; have := h.debt; have := h.cfg.2.2.2.1
+    simp only [Store.room] at *; omega
+  interest s h := by
+    have := interestAmount_nonneg s h.debt
+    simp only [Store.room, Store.total, applyInterest]; omega
+  state s st := rfl
+
+theorem step_length (cls : Classifier) (sys : Sys) (op : Op) : (step cls sys op).1.length = sys.length := by
+  cases op <;> simp only [step, onStore_length]
+  case transfer i j n cur =>
+    cases sys[i]? <;> cases sys[j]? <;> simp only []
+    split <;> simp [onStore_length]
+
+/-- Without inflow, a call never increases the colony's total of a money-like quantity, and a successful
+    `consume` decreases it by exactly its cost. -/
+theorem step_pot {g : Store → Int} (hg : Pot g) (cls : Classifier) (sys : Sys) (op : Op)
+    (wf : ∀ j, op = .interest j → Sys.WF sys) (h : op.inflow = false) :
+    sumOf g (step cls sys op).1 + paid op (step cls sys op).2 ≤ sumOf g sys := by
+  cases op with
+  | regenerate i n cur => simp [Op.inflow] at h
+  | reset i => simp [Op.inflow] at h
+  | consume j cost cur d p =>
+    simp only [step]
+    rw [onStore_sum, onStore_ret]
+    cases hj : sys[j]? with
+    | none => simp [paid]
+    | some t =>
+      obtain ⟨-, hr⟩ := consume_spec cls t cost cur d p
+      have hc := hg.consume cls t cost cur d p
+      simp only [hr, retBool]
+      cases hb : (consume cls t cost cur d p).2.2.success <;> simp [paid, hb] at * <;> omega
+  | transfer i j n cur =>
+    simp only [step]
+    cases hi : sys[i]? with
+    | none => simp [paid]
+    | some a =>
+      cases hj : sys[j]? with
+      | none => simp [paid]
+      | some b0 =>
+        simp only []
+        have hw := withdraw_spec a n cur
+        cases hok : (withdraw a n cur).2 with
+        | false =>
+          have := hw.fail hok
+          simp only [Bool.false_eq_true, reduceIte, paid]
+          rw [sumOf_set g sys i a _ hi, this]; omega
+        | true =>
+          simp only [reduceIte, paid]
+          rw [onStore_sum, sumOf_set g sys i a _ hi]
+          have h1 := hg.withdraw a n cur hok
+          cases hb : (sys.set i (withdraw a n cur).1)[j]? with
+          | none => simp only []; omega
+          | some b =>
+            have h2 := hg.deposit cls b n cur
+            simp only [deposit]; omega
+  | convert j n =>
+    simp only [step]; rw [onStore_sum]
+    cases hj : sys[j]? with
+    | none => simp [paid]
+    | some t => have := hg.convert t n; simp [paid]; omega
+  | dorm j =>
+    simp only [step]; rw [onStore_sum]
+    cases hj : sys[j]? with
+    | none => simp [paid]
+    | some t => have := hg.state t .dormant; simp [paid, enterDormancy] at *; omega
+  | wake j =>
+    simp only [step]; rw [onStore_sum]
+    cases hj : sys[j]? with
+    | none => simp [paid]
+    | some t =>
+      obtain ⟨st, hst⟩ := exitDormancy_eq cls t
+      have := hg.state t st; simp [paid, hst] at *; omega
+  | interest j =>
+    simp only [step]; rw [onStore_sum]
+    cases hj : sys[j]? with
+    | none => simp [paid]
+    | some t => have := hg.interest t (wf j rfl j t hj); simp [paid] at *; omega
+
+
+/-! ### what a call does to each single store -/
+
+theorem Store.SameCfg.trans {a b c : Store} (h1 : a.SameCfg b) (h2 : b.SameCfg c) : a.SameCfg c := by
+  obtain ⟨a1, a2, a3, a4, a5, a6⟩ := h1
+  obtain ⟨b1, b2, b3, b4, b5, b6⟩ := h2
+  exact ⟨b1.trans a1, b2.trans a2, b3.trans a3, b4.trans a4, b5.trans a5, b6.trans a6⟩
+
+/-- A store before and after any call other than `apply_debt_interest`: same configuration, still well
+    formed, and the debt does not move above `maxDebt + K` if it was not above it before. -/
+structure Quiet (s s' : Store) : Prop where
+  cfg : s.SameCfg s'
+  wf : s.WF → s'.WF
+  debt : s.WF → ∀ K : Int, 0 ≤ K → s.debt ≤ s.maxDebt + K → s'.debt ≤ s.maxDebt + K
+
+theorem Quiet.refl (s : Store) : Quiet s s := ⟨Store.SameCfg.refl s, id, fun _ _ _ h => h⟩
+
+theorem Quiet.trans {a b c : Store} (h1 : Quiet a b) (h2 : Quiet b c) : Quiet a c :=
+  ⟨h1.cfg.trans h2.cfg, fun w => h2.wf (h1.wf w), fun w K hK hd => by
+    have e : b.maxDebt = a.maxDebt := h1.cfg.2.2.2.1
+    have := h2.debt (h1.wf w) K hK (by rw [e]; exact h1.debt w K hK hd)
+    rw [e] at this; exact this⟩
+
+theorem Quiet.setState {a b : Store} (h : Quiet a b) (st : MState) : Quiet a { b with state := st } :=
+  ⟨h.cfg, fun w => by have := h.wf w; exact ⟨this.1, this.2, this.3, this.4, this.5, this.6, this.7⟩, h.debt⟩
+
+theorem quiet_consume (cls : Classifier) (s : Store) (cost : Nat) (cur : Cur) (d : Bool) (p : Nat) :
+    Quiet s (consume cls s cost cur d p).1 := by
+  have h := (consume_spec cls s cost cur d p).1
+  refine ⟨h.cfg, h.wf, fun w K hK hd => ?_⟩
+  have := h.debtLim; simp only [] at this; omega
+
+theorem quiet_regenerate (cls : Classifier) (s : Store) (n : Nat) (cur : Cur) :
+    Quiet s (regenerate cls s n cur).1 := by
+  have h := (regenerate_spec cls s n cur).1
+  exact ⟨h.cfg, h.wf, fun w K hK hd => by have := h.debtLe; omega⟩
+
+theorem quiet_withdraw (s : Store) (n : Nat) (cur : Cur) : Quiet s (withdraw s n cur).1 := by
+  have h := withdraw_spec s n cur
+  exact ⟨h.cfg, h.wf, fun w K hK hd => by have := h.debt; omega⟩
+
+theorem quiet_convert (s : Store) (n : Nat) : Quiet s (convert s n).1 := by
+  have h := convert_spec s n
+  exact ⟨h.cfg, h.wf, fun w K hK hd => by have := h.debt; omega⟩
+
+theorem quiet_dorm (s : Store) : Quiet s (enterDormancy s) := (Quiet.refl s).setState _
+
+theorem quiet_wake (cls : Classifier) (s : Store) : Quiet s (exitDormancy cls s).1 := by
+  obtain ⟨st, h⟩ := exitDormancy_eq cls s
+  rw [h]; exact (Quiet.refl s).setState st
+
+theorem quiet_resetCore (s : Store) : Quiet s (resetCore s) :=
+  ⟨Store.SameCfg.refl _, fun w => ⟨w.maxAtp, w.maxGtp, w.maxNadh, Int.le_refl 0, w.maxAtp, w.maxGtp, w.maxNadh⟩,
+   fun w K hK hd => by have := w.debt; simp only [resetCore]; omega⟩
+
+theorem quiet_reset (cls : Classifier) (s : Store) : Quiet s (reset cls s).1 := by
+  obtain ⟨st, h⟩ := reset_eq cls s
+  rw [h]; exact (quiet_resetCore s).setState st
+
+/-- interest charged to store `i` by this call (zero unless the call is `apply_debt_interest` on `i`) -/
+def interestAt (i : Nat) (sys : Sys) : Op → Int
+  | .interest j => if j = i then (match sys[i]? with | some s => interestAmount s | none => 0) else 0
+  | _ => 0
+
+/-- Every call other than `apply_debt_interest` is `Quiet` on every store of the colony. -/
+theorem step_quiet (cls : Classifier) (sys : Sys) (op : Op) (hop : ∀ j, op ≠ .interest j) (i : Nat) (s : Store)
+    (h : sys[i]? = some s) : ∃ s', (step cls sys op).1[i]? = some s' ∧ Quiet s s' := by
+  cases op with
+  | interest j => exact absurd rfl (hop j)
+  | consume j cost cur d p =>
+    simp only [step, onStore_get, h, Option.map]
+    by_cases e : j = i
+    · simp only [e, reduceIte]; exact ⟨_, rfl, quiet_consume cls s cost cur d p⟩
+    · simp only [e, reduceIte]; exact ⟨_, rfl, Quiet.refl s⟩
+  | regenerate j n cur =>
+    simp only [step, onStore_get, h, Option.map]
+    by_cases e : j = i
+    · simp only [e, reduceIte]; exact ⟨_, rfl, quiet_regenerate cls s n cur⟩
+    · simp only [e, reduceIte]; exact ⟨_, rfl, Quiet.refl s⟩
+  | convert j n =>
+    simp only [step, onStore_get, h, Option.map]
+    by_cases e : j = i
+    · simp only [e, reduceIte]; exact ⟨_, rfl, quiet_convert s n⟩
+    · simp only [e, reduceIte]; exact ⟨_, rfl, Quiet.refl s⟩
+  | dorm j =>
+    simp only [step, onStore_get, h, Option.map]
+    by_cases e : j = i
+    · simp only [e, reduceIte]; exact ⟨_, rfl, quiet_dorm s⟩
+    · simp only [e, reduceIte]; exact ⟨_, rfl, Quiet.refl s⟩
+  | wake j =>
+    simp only [step, onStore_get, h, Option.map]
+    by_cases e : j = i
+    · simp only [e, reduceIte]; exact ⟨_, rfl, quiet_wake cls s⟩
+    · simp only [e, reduceIte]; exact ⟨_, rfl, Quiet.refl s⟩
+  | reset j =>
+    simp only [step, onStore_get, h, Option.map]
+    by_cases e : j = i
+    · simp only [e, reduceIte]; exact ⟨_, rfl, quiet_reset cls s⟩
+    · simp only [e, reduceIte]; exact ⟨_, rfl, Quiet.refl s⟩
+  | transfer a b n cur =>
+    simp only [step]
+    cases ha : sys[a]? with
+    | none => exact ⟨s, h, Quiet.refl s⟩
+    | some sa =>
+      cases hb : sys[b]? with
+      | none => exact ⟨s, h, Quiet.refl s⟩
+      | some sb =>
+        simp only []
+        -- the store at index i after the withdrawal was written back
+        have h1 : ∃ s1, (sys.set a (withdraw sa n cur).1)[i]? = some s1 ∧ Quiet s s1 := by
+          by_cases e : a = i
+          · subst e
+            rw [List.getElem?_set_self (lt_of_get ha)]
+            have : sa = s := by rw [ha] at h; exact Option.some.inj h
+            subst this; exact ⟨_, rfl, quiet_withdraw sa n cur⟩
+          · rw [List.getElem?_set_ne e]; exact ⟨s, h, Quiet.refl s⟩
+        obtain ⟨s1, hs1, q1⟩ := h1
+        split
+        · simp only [onStore_get, hs1, Option.map]
+          by_cases e : b = i
+          · simp only [e, reduceIte]; exact ⟨_, rfl, q1.trans (quiet_regenerate cls s1 n cur)⟩
+          · simp only [e, reduceIte]; exact ⟨_, rfl, q1⟩
+        · exact ⟨s1, hs1, q1⟩
+
+theorem interestAt_nonneg (i : Nat) (sys : Sys) (op : Op) (wf : Sys.WF sys) : 0 ≤ interestAt i sys op := by
+  cases op <;> simp only [interestAt, Int.le_refl]
+  split
+  · cases h : sys[i]? with
+    | none => exact Int.le_refl 0
+    | some s => exact interestAmount_nonneg s (wf i s h).debt
+  · exact Int.le_refl 0
+
+/-- `apply_debt_interest` on store `j`: store `i` is untouched unless `i = j`, where the debt grows by the interest. -/
+theorem step_interest (cls : Classifier) (sys : Sys) (j i : Nat) (s : Store) (h : sys[i]? = some s) :
+    ∃ s', (step cls sys (.interest j)).1[i]? = some s' ∧ s.SameCfg s' ∧ (s.WF → s'.WF) ∧
+      s'.debt = s.debt + interestAt i sys (.interest j) := by
+  simp only [step, onStore_get, h, Option.map, interestAt]
+  by_cases e : j = i
+  · simp only [e, reduceIte]
+    have := applyInterest_spec s
+    exact ⟨_, rfl, this.cfg, this.wf, this.debt⟩
+  · simp only [e, reduceIte]; exact ⟨s, rfl, Store.SameCfg.refl s, id, by omega⟩
+
+theorem step_wf (cls : Classifier) (sys : Sys) (op : Op) (wf : Sys.WF sys) : Sys.WF (step cls sys op).1 := by
+  intro i s' hs'
+  have hlt : i < sys.length := by rw [← step_length cls sys op]; exact lt_of_get hs'
+  obtain ⟨s, hs⟩ : ∃ s, sys[i]? = some s := ⟨sys[i], by simp [hlt]⟩
+  by_cases hop : ∀ j, op ≠ .interest j
+  · obtain ⟨s'', h1, q⟩ := step_quiet cls sys op hop i s hs
+    rw [h1] at hs'; cases hs'; exact q.wf (wf i s hs)
+  · obtain ⟨j, hj⟩ := Classical.not_forall.mp hop
+    have hj : op = .interest j := Classical.not_not.mp hj
+    subst hj
+    obtain ⟨s'', h1, -, w, -⟩ := step_interest cls sys j i s hs
+    rw [h1] at hs'; cases hs'; exact w (wf i s hs)
+
+/-! ### no call raises -/
+
+theorem step_no_raise (cls : Classifier) (sys : Sys) (op : Op) (e : Exc) : (step cls sys op).2 ≠ .raised e := by
+  cases op with
+  | consume j cost cur d p =>
+    simp only [step, onStore_ret]
+    cases sys[j]? with
+    | none => simp
+    | some t => simp only [(consume_spec cls t cost cur d p).2, retBool]; simp
+  | regenerate j n cur =>
+    simp only [step, onStore_ret]
+    cases sys[j]? with
+    | none => simp
+    | some t => simp only [(regenerate_spec cls t n cur).2, retUnit]; simp
+  | transfer a b n cur =>
+    simp only [step]
+    cases sys[a]? with
+    | none => simp
+    | some sa =>
+      cases sys[b]? with
+      | none => simp
+      | some sb =>
+        simp only []
+        split
+        · rw [onStore_ret]
+          cases (sys.set a (withdraw sa n cur).1)[b]? with
+          | none => simp
+          | some t => simp only [deposit, (regenerate_spec cls t n cur).2]; simp
+        · simp
+  | convert j n => simp only [step, onStore_ret]; cases sys[j]? <;> simp
+  | dorm j => simp only [step, onStore_ret]; cases sys[j]? <;> simp
+  | wake j =>
+    simp only [step, onStore_ret]
+    cases sys[j]? with
+    | none => simp
+    | some t => obtain ⟨st, h⟩ := exitDormancy_eq cls t; simp only [h, retUnit]; simp
+  | interest j => simp only [step, onStore_ret]; cases sys[j]? <;> simp
+  | reset j =>
+    simp only [step, onStore_ret]
+    cases sys[j]? with
+    | none => simp
+    | some t => obtain ⟨st, h⟩ := reset_eq cls t; simp only [h, retUnit]; simp
+
+/-! ### histories -/
+
+/-- total cost of the `consume` calls of a history that reported success -/
+def spentOf : List Op → List Ret → Int
+  | op :: ops, r :: rs => paid op r + spentOf ops rs
+  | _, _ => 0
+
+/-- number of `consume` calls of a history that reported success -/
+def successes : List Op → List Ret → Nat
+  | .consume _ _ _ _ _ :: ops, .bool true :: rs => successes ops rs + 1
+  | _ :: ops, _ :: rs => successes ops rs
+  | _, _ => 0
+
+/-- interest charged to store `i` along a history -/
+def accrued (cls : Classifier) (i : Nat) : Sys → List Op → Int
+  | _, [] => 0
+  | sys, op :: ops => interestAt i sys op + accrued cls i (step cls sys op).1 ops
+
+theorem run_length (cls : Classifier) : ∀ (ops : List Op) (sys : Sys), (run cls sys ops).2.length = ops.length
+  | [], _ => rfl
+  | op :: ops, sys => by simp [run, run_length cls ops]
+
+theorem run_wf (cls : Classifier) : ∀ (ops : List Op) (sys : Sys), Sys.WF sys → Sys.WF (run cls sys ops).1
+  | [], _, h => h
+  | op :: ops, sys, h => run_wf cls ops _ (step_wf cls sys op h)
+
+theorem run_pot {g : Store → Int} (hg : Pot g) (cls : Classifier) :
+    ∀ (ops : List Op) (sys : Sys), Sys.WF sys → (∀ op ∈ ops, op.inflow = false) →
+      sumOf g (run cls sys ops).1 + spentOf ops (run cls sys ops).2 ≤ sumOf g sys
+  | [], _, _, _ => by simp [run, spentOf]
+  | op :: ops, sys, wf, h => by
+    have h1 := step_pot hg cls sys op (fun _ _ => wf) (h op (by simp))
+    have h2 := run_pot hg cls ops _ (step_wf cls sys op wf) (fun o ho => h o (by simp [ho]))
+    simp only [run, spentOf]; omega
+
+theorem room_nonneg (s : Store) (h : s.WF) : 0 ≤ s.room := by
+  have := h.atp; have := h.gtp; have := h.nadh
+  simp only [Store.room, Store.total]; omega
+
+theorem sumOf_nonneg (g : Store → Int) (hg : ∀ s, s.WF → 0 ≤ g s) : ∀ sys : Sys, Sys.WF sys → 0 ≤ sumOf g sys
+  | [], _ => by simp [sumOf]
+  | a :: l, h => by
+    have h0 := hg a (h 0 a rfl)
+    have h1 := sumOf_nonneg g hg l (fun i s hs => h (i + 1) s (by simpa using hs))
+    simp [sumOf] at *; omega
+
+theorem run_debt (cls : Classifier) (i : Nat) :
+    ∀ (ops : List Op) (sys : Sys) (s : Store) (K : Int), Sys.WF sys → sys[i]? = some s → 0 ≤ K →
+      s.debt ≤ s.maxDebt + K →
+      ∃ s', (run cls sys ops).1[i]? = some s' ∧ s'.maxDebt = s.maxDebt ∧
+        s'.debt ≤ s.maxDebt + K + accrued cls i sys ops ∧ 0 ≤ accrued cls i sys ops
+  | [], sys, s, K, _, h, _, hd => ⟨s, h, rfl, by simp [accrued]; omega, by simp [accrued]⟩
+  | op :: ops, sys, s, K, wf, h, hK, hd => by
+    have hint := interestAt_nonneg i sys op wf
+    have wf' := step_wf cls sys op wf
+    -- one step
+    have h1 : ∃ s1, (step cls sys op).1[i]? = some s1 ∧ s1.maxDebt = s.maxDebt ∧
+        s1.debt ≤ s.maxDebt + (K + interestAt i sys op) := by
+      by_cases hop : ∀ j, op ≠ .interest j
+      · obtain ⟨s1, e1, q⟩ := step_quiet cls sys op hop i s h
+        refine ⟨s1, e1, q.cfg.2.2.2.1, ?_⟩
+        have := q.debt (wf i s h) K hK hd; omega
+      · obtain ⟨j, hj⟩ := Classical.not_forall.mp hop
+        have hj : op = .interest j := Classical.not_not.mp hj
+        subst hj
+        obtain ⟨s1, e1, c, -, d⟩ := step_interest cls sys j i s h
+        exact ⟨s1, e1, c.2.2.2.1, by omega⟩
+    obtain ⟨s1, e1, m1, d1⟩ := h1
+    obtain ⟨s', e', m', d', a'⟩ := run_debt cls i ops _ s1 (K + interestAt i sys op) wf' e1 (by omega)
+      (by rw [m1]; exact d1)
+    refine ⟨s', e', m'.trans m1, ?_, ?_⟩
+    · simp only [accrued]; rw [m1] at d'; omega
+    · simp only [accrued]; omega
+
+theorem successes_le_spent : ∀ (ops : List Op) (rs : List Ret),
+    (∀ op ∈ ops, ∀ i cost cur d p, op = .consume i cost cur d p → 1 ≤ cost) →
+    (successes ops rs : Int) ≤ spentOf ops rs
+  | [], _, _ => by simp [successes, spentOf]
+  | _ :: _, [], _ => by simp [successes, spentOf]
+  | op :: ops, r :: rs, h => by
+    have ih := successes_le_spent ops rs (fun o ho => h o (by simp [ho]))
+    cases op with
+    | consume i cost cur d p =>
+      have hc := h (.consume i cost cur d p) (by simp) i cost cur d p rfl
+      cases r with
+      | bool b => cases b <;> simp [successes, spentOf, paid] at * <;> omega
+      | _ => simp [successes, spentOf, paid] at * <;> omega
+    | _ => cases r <;> simp [successes, spentOf, paid] at * <;> omega
+
+
+theorem accrued_eq_zero (cls : Classifier) (i : Nat) :
+    ∀ (ops : List Op) (sys : Sys), (∀ op ∈ ops, ∀ j, op ≠ .interest j) → accrued cls i sys ops = 0
+  | [], _, _ => rfl
+  | op :: ops, sys, h => by
+    have h0 : interestAt i sys op = 0 := by
+      cases op with
+      | interest j => exact absurd rfl (h _ (by simp) j)
+      | _ => rfl
+    simp only [accrued, h0, accrued_eq_zero cls i ops _ (fun o ho => h o (by simp [ho]))]; rfl
+
+/-- number of `consume` calls in a history -/
+def consumeCalls : List Op → Nat
+  | .consume _ _ _ _ _ :: ops => consumeCalls ops + 1
+  | _ :: ops => consumeCalls ops
+  | [] => 0
+
+/-- every `consume` call of the history reported success (executable form) -/
+def allConsumesSucceed : List Op → List Ret → Bool
+  | .consume _ _ _ _ _ :: ops, r :: rs => r == .bool true && allConsumesSucceed ops rs
+  | _ :: ops, _ :: rs => allConsumesSucceed ops rs
+  | [], _ => true
+  | _ :: _, [] => false
+
+/-- every `consume` call of the history reported success -/
+def AllConsumesSucceed (ops : List Op) (rs : List Ret) : Prop := allConsumesSucceed ops rs = true
+
+instance (ops : List Op) (rs : List Ret) : Decidable (AllConsumesSucceed ops rs) :=
+  inferInstanceAs (Decidable (_ = true))
+
+theorem successes_eq_calls : ∀ (ops : List Op) (rs : List Ret), AllConsumesSucceed ops rs →
+    successes ops rs = consumeCalls ops
+  | [], _, _ => by simp [successes, consumeCalls]
+  | _ :: _, [], h => by simp [AllConsumesSucceed, allConsumesSucceed] at h
+  | op :: ops, r :: rs, h => by
+    cases op with
+    | consume i cost cur d p =>
+      simp only [AllConsumesSucceed, allConsumesSucceed, Bool.and_eq_true, beq_iff_eq] at h
+      obtain ⟨hr, h⟩ := h
+      subst hr
+      simp [successes, consumeCalls, successes_eq_calls ops rs h]
+    | _ =>
+      simp only [AllConsumesSucceed, allConsumesSucceed] at h
+      cases r <;> simp [successes, consumeCalls, successes_eq_calls ops rs h]
+
+theorem fresh_wf (b g n md rn rd : Nat) : (Store.fresh b g n md rn rd).WF := by
+  constructor <;> simp [Store.fresh]
+
+theorem room_fresh (b g n md rn rd : Nat) : (Store.fresh b g n md rn rd).room = b + g + n + md := by
+  simp only [Store.room, Store.total, Store.fresh]; omega
+
 end Operon.Atp
